@@ -12,7 +12,7 @@ PROP = "C09"
 
 TIERS = {
     "quick": {"random_runs": 1500, "budget_s": 240},
-    "thorough": {"random_runs": 150000, "budget_s": 1800},
+    "thorough": {"random_runs": 150000, "budget_s": 2400},
 }
 
 
@@ -296,7 +296,9 @@ def main(tier: str, replay_path: Optional[str] = None, runs: Optional[int] = Non
     for line in check_known(known):
         print(line)
     deadline = time.monotonic() + budget
-    total = len(sys_h) + n_random
+    n_p = len(sys_h) - sys_counts["core"]
+    n_random = n_random if runs is not None else engine.RANDOM_PER_TIER[tier]
+    total = sys_counts["core"] + n_p + n_random
     if start:
         idx = range(start, start + n_random)
     else:
